@@ -134,6 +134,7 @@ def readout_obligations(eng):
     obls = []
     lem, ax = S.text_lemmas(Obligation); obls += lem
     eng.prelude_axioms += list(ax.values())
+    eng.instantiators = [S.fidx_instantiator, S.ascii_instantiator]
     install_ident(eng); crc_loop_spec(eng)
     Q = D + "DataReadout."
     # ---- _calculate_crc16
@@ -335,7 +336,7 @@ def p1reader_obligations(eng):
     lem, ax = S.text_lemmas(Obligation); l2, ax2 = S.fidx_le_lemma(Obligation); l3, ax3 = S.fidx_stable_lemma(Obligation)
     obls += lem + l2 + l3
     eng.prelude_axioms += list(ax.values()) + list(ax2.values()) + list(ax3.values())
-    eng.instantiators = [S.fidx_instantiator]
+    eng.instantiators = [S.fidx_instantiator, S.ascii_instantiator]
     install_ident(eng); install_readout_init(eng)
     def apply_extend(e, st, args, ctx, node):
         buf, ch = args; b = st.getf(buf, "_buffer")
@@ -386,6 +387,10 @@ def p1reader_obligations(eng):
             return list(p1_inv(st_, rd)) + [("ghost: stream length", v["gt"] == gt0 + cn)]
         def dec(st_, e, rd=rd): return p1_view(st_, rd)["pl"]
         eng.loop_specs[(P + "read", 0)] = (inv, dec, {}, havoc)
+        def after_loop(st_, e, rd=rd):
+            v = p1_view(st_, rd); st_.ghost["after_loop"] = (v["pl"], v["raw"], v["hunt"], v["gp"])      # ghost snapshot: what the line loop left
+            return z3.BoolVal(True)
+        eng.cuts[(P + "read", "loop:0")] = after_loop
         for st1, flow, val in eng.exec_block(fn_rd.body, st, ctx):
             eng.stats["paths"] += 1
             if not eng.feasible(st1): continue
@@ -396,6 +401,12 @@ def p1reader_obligations(eng):
             ctx.oblige(st1, "post:no complete line is left unconsumed", S.FIDX(G, LFb, v["gp"], v["gt"]) >= v["gt"], fn_rd)
             ctx.oblige(st1, f"post:C19 len(buffer) + len(collected) <= {MAX_P1}", v["b"].n + v["raw"].n <= MAX_P1, fn_rd)
             ctx.oblige(st1, "post:result is the list of completed readouts", z3.BoolVal(isinstance(val, (GhostList, list))), fn_rd)
+            snap = st1.ghost.get("after_loop")
+            if snap is not None:
+                pl_a, raw_a, hunt_a, gp_a = snap; raw = v["raw"]
+                kept = z3.And(z3.BoolVal(v["hunt"] == hunt_a), v["gp"] == gp_a, raw.n == raw_a.n, z3.Or(raw.n == 0, z3.And(z3.BoolVal(raw.arr.eq(raw_a.arr)), raw.off == raw_a.off)))
+                ctx.oblige(st1, f"post:C05 nothing is discarded while unconsumed + collected octets <= {MAX_P1} (the guard cannot trip inside a readout shorter than the bound)",
+                           z3.Implies(pl_a + raw_a.n <= MAX_P1, kept), fn_rd)
         for o in ctx.obls: o.meta.update(replay="replay_p1_read", witness=p1_witness(hunt, extra=[("cn", cn)]))
         obls += ctx.obls
     eng.list_append_hook = None
